@@ -295,6 +295,53 @@ def one_vector(cls, kw, dim, with_solids, clean, level, mon):
             cls.__name__, type(e).__name__, str(e)[:100]))
         return 'refused'
     n = resolve_names(pas, eqs, solver.integrator)
+    # the same arrays with a user constant (get_particle_array(constants=
+    # {'alpha': 1.0}), as its docstring shows) named like something the
+    # scheme keeps per particle: the property has to be there all the same
+    k_ = mon.get('level1', 0)
+    plain = make_arrays(dim, with_solids, cls)
+    added = sorted(set(pas[0].properties) - set(plain[0].properties))
+    if added and k_ % 3 == 0:
+        nm_ = added[(k_ // 3) % len(added)]
+        plain[0].add_constant(nm_, [1.0])
+        try:
+            with contextlib.redirect_stdout(buf):
+                scheme.setup_properties(plain, clean=clean)
+        except BaseException as e:
+            raise Bad('constant-collision:raises', 'setup_properties on an '
+                      'array with a constant %r: %s: %s' % (
+                          nm_, type(e).__name__, str(e)[:200]))
+        mon['constant_twins'] = mon.get('constant_twins', 0) + 1
+        lost = sorted(set(pas[0].properties) - set(plain[0].properties))
+        if lost:
+            raise Bad('property-shadowed-by-constant', '%s: array with a '
+                      'user constant %r does not get the per-particle '
+                      'properties %s' % (cls.__name__, nm_, lost))
+    if k_ % 3 == 1:
+        # the same scheme reached through the shipped SchemeChooser, on
+        # arrays that carry a property of the user's own: the chooser has to
+        # leave the arrays exactly as the scheme itself does (clean or not)
+        from pysph.sph.scheme import SchemeChooser
+        direct = make_arrays(dim, with_solids, cls)
+        via = make_arrays(dim, with_solids, cls)
+        for pa_ in direct + via:
+            pa_.add_property('zz_user_age')
+        try:
+            with contextlib.redirect_stdout(buf):
+                scheme.setup_properties(direct, clean=clean)
+                SchemeChooser(default='s', s=scheme).setup_properties(
+                    via, clean=clean)
+        except BaseException as e:
+            raise Bad('chooser:raises', 'setup_properties through a '
+                      'SchemeChooser: %s: %s' % (type(e).__name__,
+                                                 str(e)[:200]))
+        mon['chooser_twins'] = mon.get('chooser_twins', 0) + 1
+        for a_, b_ in zip(direct, via):
+            if set(a_.properties) != set(b_.properties):
+                raise Bad('chooser:properties-differ', '%s clean=%s: array '
+                          '%r set up through SchemeChooser differs in %s'
+                          % (cls.__name__, clean, a_.name, sorted(
+                              set(a_.properties) ^ set(b_.properties))))
     from vlib import stepkit
     integ = solver.integrator
     called = stepkit.timestep_calls(type(integ))['stages']
